@@ -770,6 +770,8 @@ class Interp:
         node = self.node_of(fn)
         if self.is_generator_node(node) and not force_body:
             return GenObj(fn, args, kwargs)     # (a contract, if any, is applied when the generator is run)
+        if isinstance(node, ast.AsyncFunctionDef) and not force_body:
+            return CoroObj(fn, args, kwargs)    # (a contract, if any, is applied when the coroutine is awaited)
         if not force_body:
             c = self.contracts.get(key)
             if c is not None:
@@ -1264,6 +1266,10 @@ class Interp:
             if v.started:
                 raise Unsupported("coroutine awaited twice")
             v.started = True
+            key = self.key_of(v.func)
+            c = self.contracts.get(key)
+            if c is not None:
+                return self.apply_contract(key, c, v.args, v.kwargs)
             return self.call_repo_function(v.func, v.args, v.kwargs, force_body=True)
         if isinstance(v, Awaitable):
             return v.resolve()
